@@ -76,8 +76,14 @@ def table(f, N):
             return cnt == 0
         if op == "any":
             return cnt >= 1
-        if op == "one":   # "exists exactly one" over the symbols under consideration; the others are free
-            return cnt == 1
+        if op == "one":
+            # docstring: "satisfied iff one and only one input is true", `which` = the inputs to consider: exactly one
+            # of ALL inputs is true and it is one of `which` (the other helpers leave symbols outside `which` free;
+            # for `one` the documentation does not say so, and the code's reading is taken: see DESIGN.md)
+            tot = np.zeros([2] * N, dtype=int)
+            for n in range(N):
+                tot = tot + grid[n]
+            return (tot == 1) & (cnt == 1)
     raise ValueError("unknown node %r" % (op,))
 
 
